@@ -162,4 +162,5 @@ func checkC17(e *env) {
 			}
 		}
 	}
+	above32(e, false)
 }
